@@ -1,3 +1,4 @@
+import __future__
 import ast
 import inspect
 import linecache
@@ -8,6 +9,10 @@ from itertools import count
 from types import CodeType, FunctionType
 
 from .utils import MISSING, NameDatabase, Unusable, UsageError, subtler_type
+
+_FUTURE_FLAGS = 0
+for _name in __future__.all_feature_names:
+    _FUTURE_FLAGS |= getattr(__future__, _name).compiler_flag
 
 recurse = Unusable(
     "recurse() can only be used from inside an @ovld-registered function."
@@ -757,7 +762,14 @@ def recode(fn, ovld, recurse_sym, call_next_sym, newname):
         new = closure_wrap(new.body[0], "irrelevant", fn.__code__.co_freevars)
     ast.fix_missing_locations(new)
     ast.increment_lineno(new, fn.__code__.co_firstlineno - 1)
-    res = compile(new, mode="exec", filename=fn.__code__.co_filename)
+    # (with the __future__ features of the function's module, e.g. annotations)
+    res = compile(
+        new,
+        mode="exec",
+        filename=fn.__code__.co_filename,
+        flags=fn.__code__.co_flags & _FUTURE_FLAGS,
+        dont_inherit=True,
+    )
     if fn.__closure__:
         res = [x for x in res.co_consts if isinstance(x, CodeType)][0]
     (*_, new_code) = [ct for ct in res.co_consts if isinstance(ct, CodeType)]
